@@ -32,11 +32,16 @@ def gen(seed, tier):
         nonlocal n
         pre = [g.any_frame(r.choice(ICAOS)) for _ in range(r.randint(0, 3))]
         o = {"U": 1} if r.random() < 0.5 else {}
-        cases.append(H("C04-%d" % n, o, [seg(0, pre + [base]), seg(0, [bad])]))
+        # the corrupted frame arrives 3 s later: if it were applied, the last-contact age would restart
+        cases.append(H("C04-%d" % n, o, [seg(0, pre + [base]), seg(3000, [bad])]))
         n += 1
-    nbase = 4 if tier == "quick" else 40
-    for _ in range(nbase):
-        f, nb = valid_squitter(g)
+    bases = [(hx(df11(r.choice(ICAOS), r.randint(0, 7), 0), 56), 56),
+             (hx(df11(r.choice(ICAOS), r.randint(0, 7), r.randint(1, 127)), 56), 56),
+             (g.f_df17(r.choice(ICAOS), g.me_airpos()), 112),
+             (g.f_df17(r.choice(ICAOS), g.me_ident(), df=18), 112)]
+    if tier != "quick":
+        bases += [valid_squitter(g) for _ in range(36)]
+    for f, nb in bases:
         v = int(f, 16)
         # all single-bit errors in bits 6..n
         for b in range(6, nb + 1):
@@ -70,8 +75,17 @@ def oracle(parts, outcome, obs):
     if len(o) != 2:
         return "missing observation"
     if fr is None:
-        if o[0] != o[1]:
-            return "a DF11/17/18 frame with failing parity (%s) changed the table" % bad.decode()
+        AGES = ("ts", "ct0", "ct1", "pt", "tt", "ht", "b5t")
+        ra, rb = pyspec.rows_of(o[0]), pyspec.rows_of(o[1])
+        if set(ra) != set(rb):
+            return "a DF11/17/18 frame with failing parity (%s) changed the set of aircraft" % bad.decode()
+        for a in ra:
+            ch = [f for f in ra[a] if f not in AGES and ra[a][f] != rb[a].get(f)]
+            if ch:
+                return "a DF11/17/18 frame with failing parity (%s) changed %s of %06X" % (bad.decode(), ch, a)
+            want = str(int(ra[a]["ts"]) + (segs[1][0] - segs[0][0]) // 1000)
+            if rb[a]["ts"] != want:
+                return "a DF11/17/18 frame with failing parity (%s) restarted the last-contact age of %06X (age %s, expected %s)" % (bad.decode(), a, rb[a]["ts"], want)
     return None
 
 
